@@ -45,14 +45,21 @@ let c15_gram body =
              (bool_s (print_out ds = o)) (bool_s (out_ok ds)))
   | _ -> failwith "c15-gram: bad case"
 
-(* in: NOTE TARGET   out: (try none|(some BYTES)) (wf b) (rb BYTES) *)
+(* in: NOTE TARGET
+   out: (try none|(some BYTES)) (wf b) (hb b) (rb BYTES) (sc none|(some BYTES)) (un none|(some BYTES)) (ms b)
+   try = the shape the source has now; sc / un = repaired / historical shape; ms = meta_split s = split_note s *)
 let c15_remap body =
   match parse_many body with
   | [s; t] ->
       let s = str_of s and t = str_of t in
-      let tr = match try_remap s t with None -> Sym "none" | Some r -> L [Sym "some"; show_str r] in
-      Printf.sprintf "%s (wf %s) %s" (show (L [Sym "try"; tr])) (bool_s (wf_note s))
-        (show (L [Sym "rb"; show_str (replace_base s t)]))
+      let o = function None -> Sym "none" | Some r -> L [Sym "some"; show_str r] in
+      Printf.sprintf "%s (wf %s) (hb %s) %s %s %s (ms %s)" (show (L [Sym "try"; o (try_remap s t)])) (bool_s (wf_note s))
+        (bool_s (has_base_field s)) (show (L [Sym "rb"; show_str (replace_base s t)]))
+        (show (L [Sym "sc"; o (try_remap_scoped s t)])) (show (L [Sym "un"; o (remap_in s t)]))
+        (bool_s (meta_split s = split_note s))
   | _ -> failwith "c15-remap: bad case"
 
-let () = run_driver ["c15-cmp", c15_cmp; "c15-print", c15_print; "c15-gram", c15_gram; "c15-remap", c15_remap] []
+(* out: 1 when the source has the repaired shape *)
+let c15_fact _ = bool_s remap_below_divider
+
+let () = run_driver ["c15-cmp", c15_cmp; "c15-print", c15_print; "c15-gram", c15_gram; "c15-remap", c15_remap; "c15-fact", c15_fact] []
